@@ -87,7 +87,14 @@ Proof.
 Qed.
 
 (* ---- the abstract view ---- *)
-Inductive ccls := KW | KB | KChkL | KChkU | KCas | KWr.
+(* classes of the loop's program counter, as integers so that lia decides the invariant *)
+Definition ccls := Z.
+Definition KW : ccls := 0.      (* waiting, or I/O callbacks with no chores pending *)
+Definition KB : ccls := 1.      (* chores pending or in progress, before the store of 0 *)
+Definition KChkL : ccls := 2.
+Definition KChkU : ccls := 3.
+Definition KCas : ccls := 4.
+Definition KWr : ccls := 5.
 
 Definition pendB (c : cons) : bool :=
   match c_phase c with PhEvents => c_chores c || has_efd (c_evs c) | _ => true end.
@@ -132,7 +139,8 @@ Proof.
   - apply tot_nonneg, nn_p3.
   - unfold d_q. destruct (c_pc (con s)) as [ |[]|[]|[]| | | | | | | ]; auto.
   - unfold d_q. destruct (c_pc (con s)) as [ |[]|[]|[]| | | | | | | ]; auto.
-  - unfold d_q, cls_of. destruct (c_pc (con s)) as [ |[]|[]|[]| | | | | | | ]; auto; intro H; congruence.
+  - unfold d_q, cls_of, KW, KB, KChkL, KChkU, KCas, KWr.
+    destruct (c_pc (con s)) as [ |[]|[]|[]| | | | | | | ]; auto; intro H; try lia; destruct (pendB (con s)); lia.
 Qed.
 
 Lemma zlen_app1 : forall A (l : list A) x, zlen (l ++ [x]) = zlen l + 1.
